@@ -34,6 +34,7 @@ def run(F, R, ctx):
     complex_sign_rule(F, R)
     delimiter_agreement_rule(F, R)
     interner_id_rule(F, R)
+    counter_width_rule(F, R)
 
 
 def _run(F, R, ctx):
@@ -460,3 +461,28 @@ def interner_id_rule(F, R):
                    "position depends on which thread gets to the table first, not on the id handed out" % (
                        fn.short(), lib.split_path(b["callee"])[-1], b["line"]), fn.loc(b["line"]), sample=True)
     R.floor("C12.i", "table insertions after drawing an id", n, 2)
+
+
+def counter_width_rule(F, R):
+    R.rule("C12.o", "what the reader counts, it counts in at least 32 bits: every overflow-checked addition / multiplication in "
+                    "steel-parser (offsets, nesting depths, pending datum comments, list lengths) is on an integer type of 32 "
+                    "bits or more. nc: a count of input items kept in a u8 / u16 overflows on a text with a few hundred of "
+                    "them — 256 `#;` datum comments in one list panicked the reader (debug) or wrapped (release)")
+    n = 0
+    for name, fn in sorted(F.fns.items()):
+        if not name.startswith("steel_parser::") or re.search(r"::tests?::|_tests?::", name):
+            continue
+        for b in fn.blocks:
+            if b["c"]:
+                continue
+            for e in b["e"]:
+                if e[0] == "binop" and e[1] in ("AddWithOverflow", "MulWithOverflow", "Add", "Mul") and \
+                        re.match(r"^[iu](8|16|32|64|128|size)$", e[2]) and not str(e[5]).startswith("const:") :
+                    n += 1
+                    R.inst("C12.o", "%s / %s on %s (line %s)" % (fn.short(), e[1].replace("WithOverflow", ""), e[2], e[3]),
+                           e[2] not in ("u8", "i8", "u16", "i16"),
+                           "%s counts in %s (line %s: %s %s %s): a text with more than %d of the counted items overflows it — "
+                           "the reader panics (debug build) or miscounts (release) instead of accepting or rejecting the text" % (
+                               fn.short(), e[2], e[3], e[5], e[1], e[6], 255 if e[2] in ("u8", "i8") else 65535),
+                           fn.loc(e[3]), sample=n <= 2)
+    R.floor("C12.o", "counting additions in the reader", n, 8)
